@@ -204,3 +204,56 @@ def sv_mentions(sv, target):
     if isinstance(sv, (tuple, frozenset)):
         return any(sv_mentions(x, target) for x in sv if isinstance(x, (tuple, frozenset)))
     return False
+
+
+def sv_affine(sv, depth=0):
+    """affine normal form of a symbolic value: dict atom -> coefficient (key 1 = constant); casts are transparent"""
+    if depth > 40 or not isinstance(sv, tuple) or not sv:
+        return {sv: 1}
+    if sv[0] == "c" and isinstance(sv[1], int):
+        return {1: sv[1]} if sv[1] else {}
+    if sv[0] == "null":
+        return {}
+    if sv[0] == "op" and sv[1] in ("+", "-"):
+        a = sv_affine(sv[2], depth + 1)
+        b = sv_affine(sv[3], depth + 1)
+        out = dict(a)
+        k = 1 if sv[1] == "+" else -1
+        for x, c in b.items():
+            out[x] = out.get(x, 0) + k * c
+            if out[x] == 0:
+                del out[x]
+        return out
+    if sv[0] == "op" and sv[1] == "*":
+        a = sv_affine(sv[2], depth + 1)
+        b = sv_affine(sv[3], depth + 1)
+        if set(b) <= {1}:
+            return {x: c * b.get(1, 0) for x, c in a.items() if c * b.get(1, 0)}
+        if set(a) <= {1}:
+            return {x: c * a.get(1, 0) for x, c in b.items() if c * a.get(1, 0)}
+    if sv[0] == "bool":
+        return sv_affine(sv[1], depth + 1)
+    return {sv: 1}
+
+
+def aff_sub(a, b):
+    out = dict(a)
+    for x, c in b.items():
+        out[x] = out.get(x, 0) - c
+        if out[x] == 0:
+            del out[x]
+    return out
+
+
+def zero_facts(p):
+    """affine expressions known to be zero on the path: from  a == b  taken true and from  x  (or x != 0) taken false"""
+    out = []
+    for atom, tv, bev in cond_atoms(p):
+        if isinstance(atom, tuple) and len(atom) == 4 and atom[0] == "op" and atom[1] == "==":
+            if tv:
+                out.append((aff_sub(sv_affine(atom[2]), sv_affine(atom[3])), bev))
+        elif isinstance(atom, tuple) and atom and atom[0] == "op" and atom[1] in ("<", "<=", ">", ">=", "&&", "||", "&", "|"):
+            continue
+        elif tv is False:
+            out.append((sv_affine(atom), bev))
+    return out
